@@ -3,6 +3,8 @@ import RimeModel.C07.TransLemmas
 import RimeModel.C07.LongLemmas
 import RimeModel.C07.BuiltLemmas
 import RimeModel.C07.SentenceLemmas
+import RimeModel.C07.PoetGraphs
+import RimeModel.C07.PoetPtr
 /-!
 C07 — candidates for an input are exactly the dictionary entries that its code spells.  Property theorems only.
 
@@ -296,5 +298,321 @@ example :
     w.edges = [(0, 2), (2, 3)] ∧ poetReaches w.edges 3 = true ∧
     (sentenceTranslation w 0 3 (some ⟨"sentence", 0, 3, [65, 66]⟩)).map (fun c => (c.endPos, c.text)) = [(3, [65, 66]), (2, [65])] := by
   decide
+
+/-! ### the sentence maker (`Poet::MakeSentence` without a grammar plugin: `MakeSentenceWithStrategy<DynamicProgramming>`)
+
+Model: RimeModel/C07/Poet.lean (line-by-line port, generic over the weight operations `WOps`), the word graphs of the
+two translators in RimeModel/C07/PoetGraphs.lean.  `Sorted` = start positions strictly increasing (the iteration
+order of the `std::map`), `Forward` = every edge ends after its start. -/
+
+/-- **poet_sentence_is_path** — for EVERY weight structure and EVERY comparison function: if the poet returns a
+sentence for `(graph, total)`, its components (what `Sentence::Extend` receives, in order) are not empty; each is an
+edge of the graph carrying an entry of that edge's entry list; each starts where the previous one ended; none of
+them is the edge `[0, total)`; the last ends at `total`; the weights are the running sums
+`previous + (entry weight + kPenalty)`; and the first starts at an `Origin`: position 0, or — a quirk of
+`states[end_pos]` — the end of an edge that carries no entry at all.  When no edge is without entries the first
+component starts at 0: the sentence is a path from 0 to `total` other than the single edge `[0, total)`. -/
+theorem poet_sentence_is_path {W : Type} (ops : WOps W) (cmp : Line W → Line W → Bool) (g : PGraph W) (total : Nat)
+    (cs : List (Comp W)) (h : poetComponents ops cmp g total = some cs) :
+    cs ≠ [] ∧ ∃ o, Origin g o ∧ (NoEmptyEdge g → o = 0) ∧ IsPath ops g total ops.zero o cs ∧ pathEnd o cs = total := by
+  rw [poetComponents_some, poetLine_some] at h
+  obtain ⟨hf, hne⟩ := h
+  obtain ⟨o, ho, hp⟩ := poetStates_allSlots ops cmp g total _ (slotInv_rpath ops g total) ⟨0, Or.inl rfl, rfl⟩ total cs.reverse hf
+  have := rpath_isPath ops g total o cs.reverse total hp [] trivial
+  simp only [List.reverse_reverse, List.append_nil, pathEnd] at this
+  exact ⟨by simpa using hne, o, ho, fun hn => origin_zero_of_noEmptyEdge g hn o ho, this.1, this.2⟩
+
+/-- **poet_sentence_fields** — the `Sentence` the poet returns is what `Extend` makes of the components: the text is
+the concatenation of the entries' texts, the code the concatenation of their codes, `components()` the entries,
+`word_lengths()` the differences of consecutive end positions (the same list `Line::word_lengths` computes), the end
+position that of the last component, the weight that of the last component. -/
+theorem poet_sentence_fields {W : Type} (ops : WOps W) (cmp : Line W → Line W → Bool) (g : PGraph W) (total : Nat)
+    (sen : Sentence W) (h : makeSentence ops cmp g total = some sen) :
+    ∃ cs, poetComponents ops cmp g total = some cs ∧ sen.text = cs.flatMap (·.entry.text) ∧
+      sen.code = cs.flatMap (·.entry.code) ∧ sen.components = cs.map (·.entry) ∧
+      sen.wordLengths = wordLengthsFrom 0 cs ∧ sen.endPos = pathEnd 0 cs ∧ sen.weight = pathWeight ops.zero cs := by
+  unfold makeSentence at h
+  cases hc : poetComponents ops cmp g total with
+  | none => simp [hc] at h
+  | some cs =>
+    simp only [hc, Option.map_some, Option.some.injEq] at h
+    subst h
+    obtain ⟨h1, h2, h3, h4, h5, h6⟩ := foldl_extend cs (Sentence.init ops)
+    exact ⟨cs, rfl, by simpa [Sentence.init] using h1, by simpa [Sentence.init] using h2, by simpa [Sentence.init] using h3,
+      by simpa [Sentence.init] using h4, h5, h6⟩
+
+/-- **poet_none_iff_unreachable** — on a graph whose start positions come in increasing order and whose edges go
+forward, the poet returns no sentence exactly when `total` is not `Live`: there is no edge WITH entries, other than
+`[0, total)`, into `total` from a `Visited` position — one reachable from 0 by a chain of edges other than `[0, total)`
+(entries or not: `states[end_pos]` is created before the entry list is looked at).  This is what
+`found == states.end() || found->second.empty()` amounts to; in particular `total = 0` never yields a sentence
+(position 0 holds the empty line and no forward edge ends there). -/
+theorem poet_none_iff_unreachable {W : Type} (ops : WOps W) (cmp : Line W → Line W → Bool) (g : PGraph W) (total : Nat)
+    (hs : g.Sorted) (hf : g.Forward) :
+    makeSentence ops cmp g total = none ↔ ¬ Live g total total := by
+  have hm : makeSentence ops cmp g total = none ↔ poetLine ops cmp g total = none := by
+    unfold makeSentence poetComponents
+    cases poetLine ops cmp g total <;> simp
+  rw [hm, poetLine_none]
+  constructor
+  · intro hn ⟨s, evs, es, hv, hsv, he, hx, hes⟩
+    obtain ⟨l, hl, hne⟩ := (cinv_final ops cmp g total hs hf).2 (s, evs) hsv (total, es) he hv hx
+    exact hne hes (hn l hl)
+  · intro hn l hl
+    apply Classical.byContradiction
+    intro hne
+    exact hn ((poetStates_allSlots ops cmp g total _ (slotInv_visited ops g total) ⟨Visited.zero, fun h => absurd rfl h⟩ total l hl).2 hne)
+
+/-- **poet_some_iff_path** — when moreover every edge carries an entry, the poet returns a sentence exactly when
+`total` is reachable from 0 by a chain of at least one edge, none of them the edge `[0, total)` (weights play no
+role: any comparison function, any weight structure). -/
+theorem poet_some_iff_path {W : Type} (ops : WOps W) (cmp : Line W → Line W → Bool) (g : PGraph W) (total : Nat)
+    (hs : g.Sorted) (hf : g.Forward) (hne : NoEmptyEdge g) :
+    (∃ best, poetComponents ops cmp g total = some best) ↔
+      ∃ cs, cs ≠ [] ∧ IsPath ops g total ops.zero 0 cs ∧ pathEnd 0 cs = total := by
+  constructor
+  · intro ⟨best, hb⟩
+    obtain ⟨h1, o, _, h0, hp, he⟩ := poet_sentence_is_path ops cmp g total best hb
+    have := h0 hne
+    subst this
+    exact ⟨best, h1, hp, he⟩
+  · intro ⟨cs, h1, hp, he⟩
+    obtain ⟨l, hl, _⟩ := poetLine_unbeaten ops cmp g total (fun _ _ => True) (poetOrder_true ops cmp) hs hf cs h1 hp he
+    exact ⟨l.reverse, by rw [poetComponents_some]; simpa using hl⟩
+
+/-- **poet_sentence_optimal** — with `Poet::CompareWeight` and weights whose `<` is a strict weak order that adding
+the same number on the right never reverses (`WLaws`: integers, exact dyadic numbers, IEEE doubles without NaN), on a
+sorted forward graph: no path from 0 to `total` (other than the excluded single edge) has a strictly larger total
+weight than the sentence returned. -/
+theorem poet_sentence_optimal {W : Type} (ops : WOps W) (hw : WLaws ops) (g : PGraph W) (total : Nat)
+    (hs : g.Sorted) (hf : g.Forward) (best : List (Comp W)) (h : poetComponents ops (compareWeight ops) g total = some best)
+    (cs : List (Comp W)) (hne : cs ≠ []) (hp : IsPath ops g total ops.zero 0 cs) (he : pathEnd 0 cs = total) :
+    ops.lt (pathWeight ops.zero best) (pathWeight ops.zero cs) = false := by
+  obtain ⟨l, hl, hr⟩ := poetLine_unbeaten ops (compareWeight ops) g total _ (poetOrder_compareWeight ops hw) hs hf cs hne hp he
+  rw [poetComponents_some, hl] at h
+  have hl' : l = best.reverse := Option.some.inj h
+  subst hl'
+  unfold compareWeight at hr
+  rw [← pathWeight_reverse ops best.reverse, ← pathWeight_reverse ops cs.reverse] at hr
+  simpa using hr
+
+/-- **poet_sentence_optimal_int** — `poet_sentence_optimal` for integer weights (which obey `WLaws`): the sentence
+returned weighs at least as much as every path from 0 to `total`. -/
+theorem poet_sentence_optimal_int (k : Int) (g : PGraph Int) (total : Nat) (hs : g.Sorted) (hf : g.Forward)
+    (best : List (Comp Int)) (h : poetComponents (intOps k) (compareWeight (intOps k)) g total = some best)
+    (cs : List (Comp Int)) (hne : cs ≠ []) (hp : IsPath (intOps k) g total 0 0 cs) (he : pathEnd 0 cs = total) :
+    pathWeight 0 cs ≤ pathWeight 0 best := by
+  have := poet_sentence_optimal (intOps k) (wlaws_int k) g total hs hf best h cs hne hp he
+  simp only [intOps, decide_eq_false_iff_not, Int.not_lt] at this
+  exact this
+
+/-- **poet_left_associate_optimal** — `Poet::LeftAssociateCompare` (the table translator's) with integer weights
+(exact arithmetic; it is the strict monotonicity of `+` that the tie-breaking needs, which rounding to double does
+not have): no path from 0 to `total` is heavier than the sentence returned; among the paths of the same weight none
+has fewer words; and among those with as many words none has lexicographically larger word lengths (longer words
+first: "left associate"). -/
+theorem poet_left_associate_optimal (k : Int) (g : PGraph Int) (total : Nat) (hs : g.Sorted) (hf : g.Forward)
+    (best : List (Comp Int)) (h : poetComponents (intOps k) (leftAssociateCompare (intOps k)) g total = some best)
+    (cs : List (Comp Int)) (hne : cs ≠ []) (hp : IsPath (intOps k) g total 0 0 cs) (he : pathEnd 0 cs = total) :
+    pathWeight 0 cs ≤ pathWeight 0 best ∧
+    (pathWeight 0 cs = pathWeight 0 best →
+      (wordLengthsFrom 0 best).length ≤ (wordLengthsFrom 0 cs).length ∧
+      ((wordLengthsFrom 0 best).length = (wordLengthsFrom 0 cs).length →
+        lexLt (wordLengthsFrom 0 best) (wordLengthsFrom 0 cs) = false)) := by
+  obtain ⟨l, hl, hr⟩ := poetLine_unbeaten (intOps k) (leftAssociateCompare (intOps k)) g total _ (poetOrder_leftAssociate k) hs hf cs hne hp he
+  rw [poetComponents_some, hl] at h
+  have hl' : l = best.reverse := Option.some.inj h
+  subst hl'
+  rw [leftAssociate_false_iff] at hr
+  have e1 : lineWeight (intOps k) best.reverse = pathWeight 0 best := by
+    have := pathWeight_reverse (intOps k) best.reverse; rw [List.reverse_reverse] at this; exact this.symm
+  have e2 : lineWeight (intOps k) cs.reverse = pathWeight 0 cs := by
+    have := pathWeight_reverse (intOps k) cs.reverse; rw [List.reverse_reverse] at this; exact this.symm
+  have e3 : wordLengths best.reverse = wordLengthsFrom 0 best := by simp [wordLengths]
+  have e4 : wordLengths cs.reverse = wordLengthsFrom 0 cs := by simp [wordLengths]
+  rw [e1, e2, e3, e4] at hr
+  exact ⟨hr.1, fun h => hr.2 h.symm⟩
+
+/-- **poet_pointer_lines_agree** — nothing is lost by modelling lines immutably.  The code's `Line` holds a POINTER to its
+predecessor, which for the `DynamicProgramming` strategy is the map slot `states[start_pos]` itself; components are found
+by following the pointers through the map as it is at that moment (`pPoetStates` / `resolve`: the loop on such objects,
+comparisons included).  On a graph whose start positions increase and whose edges go forward, every slot of the pointer
+version resolves at the end to the line the immutable version holds, and the line returned is the same: a slot is written
+only by edges from smaller start positions, and those are all done when the slot is first read (`fuel` = any number larger
+than every position of the graph + 1: the bound on pointer hops). -/
+theorem poet_pointer_lines_agree {W : Type} (ops : WOps W) (cmp : Line W → Line W → Bool) (g : PGraph W) (total fuel : Nat)
+    (hs : g.Sorted) (hf : g.Forward) (h0 : 0 < fuel) (hfuel : ∀ sv ∈ g, sv.1 + 1 < fuel ∧ ∀ ev ∈ sv.2, ev.1 < fuel) :
+    (∀ p, stFind (poetStates ops cmp g total) p = (pFind (pPoetStates ops cmp g total fuel) p).map (resolve (pPoetStates ops cmp g total fuel) fuel)) ∧
+    pPoetLine ops cmp g total fuel = poetLine ops cmp g total :=
+  pointer_poet_agrees' ops cmp g total fuel hs hf h0 hfuel
+
+/-- **table_sentence_is_concatenation_of_entries** — `word_graph_edges_sound` and `poet_sentence_is_path` together:
+the sentence a table-style schema shows (port of `TableTranslator::MakeSentence` + `Poet` with `LeftAssociateCompare`
+on the word graph of the model) spans the whole input and its text is a concatenation of `TableWord`s — consecutive
+pieces `[s, e)` from 0 to the end of the input, each an edge of the word graph (hence `EdgeOk`: a key the prism finds
+at `s`, with words, followed by exactly the delimiters after it) with the text of a word entry stored for that key. -/
+theorem table_sentence_is_concatenation_of_entries (t : Table) (syl : List Bytes) (delims input : Bytes)
+    (cps : Nat → List PrismKey) (start : Nat) (c : Cand) (h : tableSentence t syl delims input cps start = some c) :
+    c.type = "sentence" ∧ c.start = start ∧ c.endPos = start + input.length ∧
+    Concat (fun s e txt => TableWord t syl delims input cps s e txt ∧ EdgeOk t syl delims input cps (s, e)) 0 input.length c.text := by
+  unfold tableSentence at h
+  cases hm : makeSentence dyOps (leftAssociateCompare dyOps) (tablePoetGraph t syl delims input cps) input.length with
+  | none => simp [hm] at h
+  | some sen =>
+    simp only [hm, Option.map_some, Option.some.injEq] at h
+    subst h
+    obtain ⟨cs, hc, htext, _, _, _, hend, _⟩ := poet_sentence_fields _ _ _ _ sen hm
+    obtain ⟨_, o, _, h0, hp, he⟩ := poet_sentence_is_path _ _ _ _ cs hc
+    have := h0 (tablePoetGraph_noEmptyEdge t syl delims input cps)
+    subst this
+    refine ⟨rfl, rfl, by simp [sentenceCand, hend, he], ?_⟩
+    have hcat := isPath_concat dyOps _ input.length
+      (fun s e txt => TableWord t syl delims input cps s e txt ∧ EdgeOk t syl delims input cps (s, e)) (by
+        intro s e x hx
+        obtain ⟨hedge, ce, hce, rfl⟩ := tablePoetGraph_edge t syl delims input cps s e x hx
+        obtain ⟨m, hm1, hm2, hm3, hm4, hm5⟩ := edgeWord_some t syl delims input cps s e ce hce
+        exact ⟨⟨hedge, m, hm1, hm2, hm3, ce.1, hm4, ce.2, hm5, rfl⟩, word_graph_edges_sound t syl delims input cps (s, e) hedge⟩)
+      cs dyOps.zero 0 hp
+    rw [he] at hcat
+    simpa [sentenceCand, htext] using hcat
+
+/-- **script_sentence_is_concatenation_of_entries** — the sentence a script-style schema shows (port of
+`ScriptTranslation::MakeSentence` + `Poet` with `CompareWeight` on the dictionary's lookups from every start position
+of the syllable graph) spans the interpreted input and its text is a concatenation of `ScriptWord`s: consecutive
+pieces `[s, e)` from 0 to the interpreted length, each with the text of a dictionary entry whose code the syllable
+graph spells from `s` to `e` (`lookupTable_sound`, from `query_sound` and `match_extra_sound`). -/
+theorem script_sentence_is_concatenation_of_entries (t : Table) (g : Graph) (hk : g.KeysNodup) (start : Nat) (c : Cand)
+    (h : scriptSentence t g start = some c) :
+    c.type = "sentence" ∧ c.start = start ∧ c.endPos = start + g.interpLen ∧
+    Concat (ScriptWord t g) 0 g.interpLen c.text := by
+  unfold scriptSentence at h
+  cases hm : makeSentence dyOps (compareWeight dyOps) (scriptPoetGraph t g) g.interpLen with
+  | none => simp [hm] at h
+  | some sen =>
+    simp only [hm, Option.map_some, Option.some.injEq] at h
+    subst h
+    obtain ⟨cs, hc, htext, _, _, _, hend, _⟩ := poet_sentence_fields _ _ _ _ sen hm
+    obtain ⟨_, o, _, h0, hp, he⟩ := poet_sentence_is_path _ _ _ _ cs hc
+    have := h0 (scriptPoetGraph_noEmptyEdge t g)
+    subst this
+    refine ⟨rfl, rfl, by simp [sentenceCand, hend, he], ?_⟩
+    have hcat := isPath_concat dyOps _ g.interpLen (ScriptWord t g) (by
+        intro s e x hx
+        obtain ⟨ch, en, h1, h2, rfl⟩ := scriptPoetGraph_edge t g s e x hx
+        exact ⟨ch, en, h1, h2, rfl, lookupTable_sound t g hk s Dy.zero (e, ch) h1⟩)
+      cs dyOps.zero 0 hp
+    rw [he] at hcat
+    simpa [sentenceCand, htext] using hcat
+
+/-- **script_order_ported** — `script_order` with the sentence computed by the port of the poet (no oracle): the
+translation is an optional sentence — none, or the poet's, which then is a concatenation of entries covering the
+interpreted input — followed by phrases/completions by non-increasing end position. -/
+theorem script_order_ported (t : Table) (g : Graph) (hk : g.KeysNodup) (start endOfInput : Nat) (wc : Bool) :
+    ∃ (s : Option Cand) (body : List Cand), scriptTranslationP t g start endOfInput wc = s.toList ++ body ∧
+      body.Pairwise (fun a b => b.endPos ≤ a.endPos) ∧
+      (∀ c ∈ body, (c.type = "phrase" ∨ c.type = "completion") ∧ c.start = start) ∧
+      (∀ c, s = some c → c.type = "sentence" ∧ c.start = start ∧ c.endPos = start + g.interpLen ∧
+        Concat (ScriptWord t g) 0 g.interpLen c.text) := by
+  obtain ⟨s, body, h1, h2, h3, h4⟩ := script_order t g start endOfInput wc (scriptSentence t g start)
+  refine ⟨s, body, h1, h2, h3, ?_⟩
+  intro c hc
+  rcases h4 with h4 | h4
+  · rw [h4] at hc; simp at hc
+  · exact script_sentence_is_concatenation_of_entries t g hk start c (by rw [← h4, hc])
+
+/-- **table_sentence_shape_ported** — `table_sentence_shape` with the sentence computed by the port of the poet (no
+oracle): the sentence translation is empty, or the poet's sentence — a concatenation of word entries whose keys and
+delimiters make up the input — followed only by `table` candidates that start the segment, longer first words first. -/
+theorem table_sentence_shape_ported (t : Table) (syl : List Bytes) (delims input : Bytes) (cps : Nat → List PrismKey) (start : Nat) :
+    let w := wordGraph t syl delims input cps
+    let tr := sentenceTranslation w start input.length (tableSentence t syl delims input cps start)
+    (tr = [] ∨ ∃ s, tr = s :: sentenceWords w start ∧ s.type = "sentence" ∧ s.start = start ∧ s.endPos = start + input.length ∧
+        Concat (fun a b txt => TableWord t syl delims input cps a b txt ∧ EdgeOk t syl delims input cps (a, b)) 0 input.length s.text) ∧
+    (sentenceWords w start).Pairwise (fun a b => b.endPos ≤ a.endPos) ∧
+    (∀ c ∈ sentenceWords w start, c.type = "table" ∧ c.start = start) := by
+  intro w tr
+  obtain ⟨_, h2, h3, h4⟩ := table_sentence_shape w start input.length (tableSentence t syl delims input cps start)
+  refine ⟨?_, h3, h4⟩
+  rcases h2 with h2 | ⟨s, hs, h2⟩
+  · exact Or.inl h2
+  · exact Or.inr ⟨s, h2, table_sentence_is_concatenation_of_entries t syl delims input cps start s hs⟩
+
+/-! ### non-vacuity (the poet) -/
+
+/-- words A on [0,1), B on [1,2), C on [0,2), D on [0,3), E on [2,3) with weights -1, -2, -1, -9, -1, penalty -3; the
+graph is sorted and forward and has no edge without entries.  total 3: D alone is the single edge [0,3) and is never
+considered; C E (running weights -4, -8) beats A B E (-4, -9, -13).  total 2: now C is the excluded single word and A B
+is returned.  total 0, a total nothing reaches, and a total only the excluded edge reaches give no sentence. -/
+example :
+    let x : Nat → Int → PEntry Int := fun b w => ⟨[b.toUInt8], [b], w⟩
+    let g : PGraph Int := [(0, [(1, [x 65 (-1)]), (2, [x 67 (-1)]), (3, [x 68 (-9)])]), (1, [(2, [x 66 (-2)])]), (2, [(3, [x 69 (-1)])])]
+    g.Sorted ∧ g.Forward ∧ NoEmptyEdge g ∧
+    (poetComponents (intOps (-3)) (compareWeight (intOps (-3))) g 3).map (·.map fun c => (c.endPos, c.entry.text, c.weight))
+      = some [(2, [67], -4), (3, [69], -8)] ∧
+    (makeSentence (intOps (-3)) (compareWeight (intOps (-3))) g 3).map (fun s => (s.text, s.code, s.wordLengths, s.endPos, s.weight))
+      = some ([67, 69], [67, 69], [2, 1], 3, -8) ∧
+    -- with total = 2 the edge [0,2) is the excluded single word: A B is returned although C alone would be heavier
+    (poetComponents (intOps (-3)) (compareWeight (intOps (-3))) g 2).map (·.map fun c => (c.endPos, c.entry.text, c.weight))
+      = some [(1, [65], -4), (2, [66], -9)] ∧
+    -- total = 0, an unreachable total, and a total only the excluded edge reaches
+    makeSentence (intOps (-3)) (compareWeight (intOps (-3))) g 0 = none ∧
+    makeSentence (intOps (-3)) (compareWeight (intOps (-3))) g 4 = none ∧
+    makeSentence (intOps (-3)) (compareWeight (intOps (-3))) [(0, [(1, [x 65 (-1)])])] 1 = none := by
+  refine ⟨by decide, by decide, by decide, by decide, by decide, by decide, by decide, by decide, by decide⟩
+
+/-- ties: [0,1)+[1,3) and [0,2)+[2,3) weigh the same.  `CompareWeight` keeps the line found first (word lengths 1,2);
+`LeftAssociateCompare` replaces it by the one with the longer first word (2,1); a three-word path of the same weight
+loses to both (more words) under `LeftAssociateCompare`. -/
+example :
+    let x : Nat → Int → PEntry Int := fun b w => ⟨[b.toUInt8], [b], w⟩
+    let g : PGraph Int := [(0, [(1, [x 65 0]), (2, [x 66 0])]), (1, [(2, [x 69 3]), (3, [x 67 0])]), (2, [(3, [x 68 0])])]
+    g.Sorted ∧ g.Forward ∧
+    (makeSentence (intOps (-3)) (compareWeight (intOps (-3))) g 3).map (fun s => (s.text, s.wordLengths, s.weight)) = some ([65, 67], [1, 2], -6) ∧
+    (makeSentence (intOps (-3)) (leftAssociateCompare (intOps (-3))) g 3).map (fun s => (s.text, s.wordLengths, s.weight)) = some ([66, 68], [2, 1], -6) := by
+  refine ⟨by decide, by decide, by decide, by decide⟩
+
+/-- the quirk `Origin` stands for: the edge [0,1) has no entries, so position 1 gets an EMPTY line, is not skipped, and
+the "sentence" is the single word B on [1,2) — it does not start at 0 (`TableTranslator::MakeSentence` can produce
+such edges, but only into positions that also have an edge with entries or are no start position) -/
+example :
+    let g : PGraph Int := [(0, [(1, [])]), (1, [(2, [⟨[66], [1], -1⟩])])]
+    g.Sorted ∧ g.Forward ∧ ¬ NoEmptyEdge g ∧ Origin g 1 ∧
+    (makeSentence (intOps (-3)) (compareWeight (intOps (-3))) g 2).map (fun s => (s.text, s.wordLengths)) = some ([66], [2]) := by
+  refine ⟨by decide, by decide, ?_, Or.inr ⟨0, [(1, [])], by simp, by simp⟩, by decide⟩
+  intro h; exact h (0, [(1, [])]) (by simp) (1, []) (by simp) rfl
+
+/-- the pointer version on the tie example: same line, found by following `predecessor` through the map; and what goes
+wrong without `Forward`: with a backward edge [2,1) the slot of position 1 is overwritten after the line at 2 was built
+on it — the pointer version then reads a different chain than the one the line was built from (the immutable version
+keeps the old chain): the hypothesis is needed -/
+example :
+    let x : Nat → Int → PEntry Int := fun b w => ⟨[b.toUInt8], [b], w⟩
+    let g : PGraph Int := [(0, [(1, [x 65 0]), (2, [x 66 0])]), (1, [(2, [x 69 3]), (3, [x 67 0])]), (2, [(3, [x 68 0])])]
+    (pPoetLine (intOps (-3)) (leftAssociateCompare (intOps (-3))) g 3 5).map (·.map fun c => (c.endPos, c.entry.text))
+      = some [(3, [68]), (2, [66])] ∧
+    (poetLine (intOps (-3)) (leftAssociateCompare (intOps (-3))) g 3).map (·.map fun c => (c.endPos, c.entry.text))
+      = some [(3, [68]), (2, [66])] ∧
+    let bad : PGraph Int := [(0, [(1, [x 65 0])]), (1, [(2, [x 66 0])]), (2, [(1, [x 67 9]), (3, [x 68 0])])]
+    (pPoetLine (intOps (-3)) (compareWeight (intOps (-3))) bad 3 6).map (·.map fun c => (c.endPos, c.entry.text))
+      ≠ (poetLine (intOps (-3)) (compareWeight (intOps (-3))) bad 3).map (·.map fun c => (c.endPos, c.entry.text)) := by
+  refine ⟨by decide, by decide, by decide⟩
+
+/-- the hypotheses of `poet_sentence_optimal` are satisfiable: integers obey `WLaws`; the first example's result is a
+path and no heavier path exists -/
+example : WLaws (intOps (-3)) ∧
+    IsPath (intOps (-3)) [(0, [(1, [⟨[65], [65], -1⟩])]), (1, [(2, [⟨[66], [66], -2⟩])])] 2 0 0
+      [⟨⟨[65], [65], -1⟩, 1, -4⟩, ⟨⟨[66], [66], -2⟩, 2, -9⟩] := by
+  refine ⟨wlaws_int _, ⟨⟨[(1, [⟨[65], [65], -1⟩])], [⟨[65], [65], -1⟩], by simp, by simp, by simp⟩, by simp, by decide,
+    ⟨[(2, [⟨[66], [66], -2⟩])], [⟨[66], [66], -2⟩], by simp, by simp, by simp⟩, by simp, by decide, trivial⟩⟩
+
+/-- the port on a translator's own data: codes a (syllable 0) and b (syllable 1), delimiter ', input a'b — the word
+graph of the table translator carries A on [0,2) and B on [2,3); the poet's sentence is AB over [0,3) -/
+example :
+    let t : Table := build id 2 [⟨[0], [65], ⟨3, 0⟩⟩, ⟨[1], [66], ⟨1, 0⟩⟩]
+    let cps : Nat → List PrismKey := fun s => if s == 0 then [⟨1, [(0, 0)]⟩] else if s == 2 then [⟨1, [(1, 0)]⟩] else []
+    (tablePoetGraph t [[97], [98]] [39] [97, 39, 98] cps).map (fun sv => (sv.1, sv.2.map fun ev => (ev.1, ev.2.map (·.text))))
+      = [(0, [(2, [[65]])]), (2, [(3, [[66]])])] ∧
+    (tableSentence t [[97], [98]] [39] [97, 39, 98] cps 0).map (fun c => (c.type, c.start, c.endPos, c.text)) = some ("sentence", 0, 3, [65, 66]) := by
+  refine ⟨by decide, by decide⟩
 
 end C07
